@@ -123,6 +123,7 @@ class Sched:
         self.change_points = set()
         self.error = None
         self.installed = False
+        self.fine = None
         self.stall_mark = [None] * nthreads
         self.start_mark = [0] * nthreads
         if replay is not None:
@@ -167,6 +168,16 @@ class Sched:
             return None
         ls = self.local[me] = self.local[me] + 1
         s = self.step = self.step + 1
+        if self.fine is not None:
+            # fine-grained write-once monitor: right after every store / call of yarl code
+            if self.gran != "ins":
+                self.fine(me, code, off)
+            else:
+                h = self.hot.get(code)
+                if h is None:
+                    h = self.hot[code] = hot_offsets(code)
+                if off in h:
+                    self.fine(me, code, off)
         pol = self.policy
         if pol == "replay":
             to = self.rp[me].get(ls)
